@@ -27,7 +27,7 @@ pub fn legal(ts: Ts, op: Op, resizable: bool, clonable_locked: bool) -> bool {
     let (pm, locked) = ts;
     match op {
         Op::Lock => !locked,
-        Op::Unlock => locked,
+        Op::Unlock => true,   // munlock is offered in every lock state: on an unlocked region it must change nothing
         Op::Ro => true,
         Op::Rw => true,
         Op::Na => !locked,
@@ -148,6 +148,7 @@ macro_rules! engine {
             pub fn apply(st: St, op: Op) -> Result<St, String> {
                 Ok(match (st, op) {
                     (St::UlRw(p), Op::Lock) => St::LRw(io(p.mlock())?), (St::UlRo(p), Op::Lock) => St::LRo(io(p.mlock())?), (St::UlNa(p), Op::Lock) => St::LNa(io(p.mlock())?),
+                    (St::UlRw(p), Op::Unlock) => St::UlRw(io(p.munlock())?), (St::UlRo(p), Op::Unlock) => St::UlRo(io(p.munlock())?), (St::UlNa(p), Op::Unlock) => St::UlNa(io(p.munlock())?),
                     (St::LRw(p), Op::Unlock) => St::UlRw(io(p.munlock())?), (St::LRo(p), Op::Unlock) => St::UlRo(io(p.munlock())?), (St::LNa(p), Op::Unlock) => St::UlNa(io(p.munlock())?),
                     (St::UlRw(p), Op::Ro) => St::UlRo(io(p.mprotect_readonly())?), (St::UlRo(p), Op::Ro) => St::UlRo(io(p.mprotect_readonly())?), (St::UlNa(p), Op::Ro) => St::UlRo(io(p.mprotect_readonly())?),
                     (St::LRw(p), Op::Ro) => St::LRo(io(p.mprotect_readonly())?), (St::LRo(p), Op::Ro) => St::LRo(io(p.mprotect_readonly())?), (St::LNa(p), Op::Ro) => St::LRo(io(p.mprotect_readonly())?),
@@ -445,6 +446,7 @@ pub fn run_c15(out: &mut Out, tier: &str, _seed: u64) {
     let thorough = tier == "thorough";
     // a container built from a slice of the wrong length would hold bytes outside what it reports (and wipes)
     { let mut rng = Rng::new(_seed, "c15-extra"); crate::objapi::conversions(out, &mut rng); }
+    ordinary_heap_copies(out);
     let depth = if thorough { 5 } else { 3 };
     let lens: Vec<usize> = vec![1, 16, 100, PAGE - 1, PAGE, PAGE + 1, 2 * PAGE + 1, 5 * PAGE];
     let hb = sequences(depth, true, true, true);
@@ -496,7 +498,8 @@ pub fn run_c15(out: &mut Out, tier: &str, _seed: u64) {
     // histories the generic sequences do not contain: an explicit zeroize() followed by new contents and a release, and a
     // container released while a panic unwinds through its owner (secrets in the spare capacity after a shrink)
     for len in [100usize, PAGE, PAGE + 1, 3 * PAGE + 5] {
-        for variant in 0..8 {
+        for variant in 0..9 {
+            if variant == 8 && (len - 1) / PAGE * PAGE + 1 == len { continue; }
             let run = { let mut fds = [0i32; 2]; unsafe { libc::pipe(fds.as_mut_ptr()); } let pid = unsafe { libc::fork() };
                 if pid == 0 { unsafe { libc::close(fds[0]); libc::mallopt(-6 /* M_PERTURB */, 0x11); libc::alarm(60); } let mut w = unsafe { <std::fs::File as std::os::unix::io::FromRawFd>::from_raw_fd(fds[1]) };
                     std::panic::set_hook(Box::new(|_| {}));
@@ -513,17 +516,27 @@ pub fn run_c15(out: &mut Out, tier: &str, _seed: u64) {
                         4 => { let _ = std::panic::catch_unwind(|| { let mut hb = HeapBytes::from(&secret[..]); hb.resize(len / 3, 0); if hb.len() < usize::MAX { panic!("unwind"); } drop(hb); }); }
                         5 => { let _ = std::panic::catch_unwind(|| { let mut p = HeapBytes::from_slice_into_locked(&secret).unwrap(); p.resize(len / 3, 0); if p.len() < usize::MAX { panic!("unwind"); } drop(p); }); }
                         6 => { let _ = std::panic::catch_unwind(|| { let mut p = HeapBytes::from_slice_into_locked(&secret).unwrap().munlock().unwrap(); p.resize(len / 3, 0); if p.len() < usize::MAX { panic!("unwind"); } drop(p); }); }
-                        _ => { let _ = std::panic::catch_unwind(|| { let p = HeapBytes::from_slice_into_readonly_locked(&secret).unwrap(); if p.len() < usize::MAX { panic!("unwind"); } drop(p); }); }
+                        7 => { let _ = std::panic::catch_unwind(|| { let p = HeapBytes::from_slice_into_readonly_locked(&secret).unwrap(); if p.len() < usize::MAX { panic!("unwind"); } drop(p); }); }
+                        // a buffer given up by a growing container, then a smaller container of the same page count, another
+                        // release in between, then the small one released: an allocator that keeps released regions for reuse
+                        // must have wiped them -- whatever it hands to free() is clean beyond the size it reports, too
+                        _ => { let mut a = HeapBytes::from(&secret[..]); a.resize(4 * len + PAGE, SECRET);
+                               let small_len = (len - 1) / PAGE * PAGE + 1;
+                               let small = HeapBytes::from(&vec![SECRET; small_len][..]);
+                               let other = HeapBytes::from(&[SECRET; 50][..]); drop(other);
+                               drop(small);
+                               let again = HeapBytes::from(&vec![SECRET; small_len][..]); drop(again);
+                               drop(a); }
                     }
                     finish(&mut w); let _ = w.flush(); unsafe { libc::_exit(0); } }
                 unsafe { libc::close(fds[1]); } let mut r = unsafe { <std::fs::File as std::os::unix::io::FromRawFd>::from_raw_fd(fds[0]) }; let mut t = String::new(); let _ = r.read_to_string(&mut t); let mut st = 0; unsafe { libc::waitpid(pid, &mut st, 0); }
                 if libc::WIFSIGNALED(st) { out.hit("protected.sequence-crashes", format!("signal {} in release scenario {} (length {})", libc::WTERMSIG(st), variant, len), json!({"op":"protected.release-scenario","len":len,"variant":variant})); }
                 t };
             out.search_evaluations += 1;
-            let names = ["unlocked: zeroize, refill, grow", "locked: zeroize, refill, grow", "HeapBytes: zeroize, refill, grow", "unlocked: zeroize, refill, drop", "HeapBytes: shrink, released while unwinding", "locked: shrink, released while unwinding", "unlocked: shrink, released while unwinding", "locked read-only: released while unwinding"];
+            let names = ["unlocked: zeroize, refill, grow", "locked: zeroize, refill, grow", "HeapBytes: zeroize, refill, grow", "unlocked: zeroize, refill, drop", "HeapBytes: shrink, released while unwinding", "locked: shrink, released while unwinding", "unlocked: shrink, released while unwinding", "locked read-only: released while unwinding", "HeapBytes: grown, then a smaller container of the same page count created and released around another release"];
             let mut any = false;
             for l in run.lines() { let f: Vec<&str> = l.split(' ').collect(); if f[0] == "R" { any = true; if f[2].parse::<i64>().unwrap_or(0) > 0 || f.get(3).and_then(|x| x.parse::<usize>().ok()).unwrap_or(0) >= 8 {
-                out.hit(&format!("protected.released-unwiped.{}", if variant < 4 { "after-explicit-zeroize" } else { "while-unwinding" }), format!("{} (length {}): {} bytes released with {} non-zero (and {} beyond the reported size)", names[variant], len, f[1], f[2], f.get(3).unwrap_or(&"0")), json!({"op":"protected.release-scenario","len":len,"variant":variant,"scenario":names[variant]})); } } }
+                out.hit(&format!("protected.released-unwiped.{}", if variant < 4 { "after-explicit-zeroize" } else if variant == 8 { "region-reused-by-a-smaller-container" } else { "while-unwinding" }), format!("{} (length {}): {} bytes released with {} non-zero (and {} beyond the reported size)", names[variant], len, f[1], f[2], f.get(3).unwrap_or(&"0")), json!({"op":"protected.release-scenario","len":len,"variant":variant,"scenario":names[variant]})); } } }
             if !any { out.hit("harness.no-release-observed", format!("scenario {} length {}", names[variant], len), json!({"variant":variant,"len":len})); }
         }
     }
@@ -674,5 +687,51 @@ pub fn run_c19(out: &mut Out, tier: &str, _seed: u64) {
         out.search_evaluations += 1;
         // an empty HeapBytes locks nothing (mlock is skipped for empty regions): ok is legitimate there
         if t.trim() == "panic" || libc::WIFSIGNALED(st) { out.hit("protected.mlock-refused.panics.constructor", format!("{} panicked / aborted when mlock was refused", name), json!({"op":"protected.constructor","name":name})); }
+    }
+}
+
+/// C15: a container that is resized, cloned or moved between states must not leave its bytes in a block of the ordinary heap
+/// either (a temporary it copies through is memory it gives back): every block the global allocator gets back while the
+/// operation runs is searched for the marked secret
+fn ordinary_heap_copies(out: &mut Out) {
+    use crate::c04::{SCAN_BLOCKS, SCAN_BYTES, SCAN_FOR};
+    use std::sync::atomic::Ordering;
+    const MARK: u8 = 0x9d;
+    let names = ["locked: resize up", "locked: resize down", "locked: clone, then resize the clone", "unlocked: resize up", "HeapBytes: resize up", "locked: unlock, protect read-only, back, lock", "locked read-only: clone"];
+    for len in [64usize, 5000, 9000] {
+        for variant in 0..names.len() {
+            let mut fds = [0i32; 2]; unsafe { libc::pipe(fds.as_mut_ptr()); }
+            let pid = unsafe { libc::fork() };
+            if pid == 0 {
+                unsafe { libc::close(fds[0]); libc::alarm(60); }
+                let mut w = unsafe { <std::fs::File as std::os::unix::io::FromRawFd>::from_raw_fd(fds[1]) };
+                let mut secret = vec![MARK; len];
+                let built: Result<Locked<HeapBytes>, _> = HeapBytes::from_slice_into_locked(&secret);
+                for x in secret.iter_mut() { *x = 0; } drop(secret);
+                let p = match built { Ok(p) => p, Err(_) => { let _ = w.write_all(b"E\n"); unsafe { libc::_exit(0); } } };
+                SCAN_BLOCKS.store(0, Ordering::Relaxed); SCAN_BYTES.store(0, Ordering::Relaxed); SCAN_FOR.store(MARK as usize, Ordering::Relaxed);
+                let r = std::panic::catch_unwind(std::panic::AssertUnwindSafe(|| { match variant {
+                    0 => { let mut p = p; p.resize(2 * len + 4096, 0); drop(p); }
+                    1 => { let mut p = p; p.resize(len / 2 + 17, 0); drop(p); }
+                    2 => { let mut c = p.clone(); c.resize(len + 1, 0); drop(c); drop(p); }
+                    3 => { let mut u = p.munlock().unwrap(); u.resize(2 * len + 4096, 0); drop(u); }
+                    4 => { let mut h = HeapBytes::from(p.as_slice()); drop(p); h.resize(3 * len + 4096, 0); drop(h); }
+                    5 => { let q = p.munlock().unwrap().mprotect_readonly().unwrap().mprotect_readwrite().unwrap().mlock().unwrap(); drop(q); }
+                    _ => { let q = p.mprotect_readonly().unwrap(); let c = q.clone(); drop(c); drop(q); }
+                } }));
+                SCAN_FOR.store(0, Ordering::Relaxed);
+                let _ = w.write_all(format!("H {} {} {}\n", SCAN_BLOCKS.load(Ordering::Relaxed), SCAN_BYTES.load(Ordering::Relaxed), if r.is_ok() { 0 } else { 1 }).as_bytes()); let _ = w.flush();
+                unsafe { libc::_exit(0); }
+            }
+            unsafe { libc::close(fds[1]); } let mut r = unsafe { <std::fs::File as std::os::unix::io::FromRawFd>::from_raw_fd(fds[0]) }; let mut t = String::new(); let _ = r.read_to_string(&mut t); let mut st = 0; unsafe { libc::waitpid(pid, &mut st, 0); }
+            out.search_evaluations += 1;
+            let rp = json!({"op":"protected.ordinary-heap-copy","len":len,"variant":variant,"scenario":names[variant]});
+            if libc::WIFSIGNALED(st) { out.hit("protected.sequence-crashes", format!("signal {} in scenario '{}' (length {})", libc::WTERMSIG(st), names[variant], len), rp.clone()); continue; }
+            let f: Vec<&str> = t.trim().split(' ').collect();
+            if f.len() == 4 && f[0] == "H" {
+                let (blocks, bytes) = (f[1].parse::<usize>().unwrap_or(0), f[2].parse::<usize>().unwrap_or(0));
+                if blocks > 0 { out.hit("protected.secret-left-in-ordinary-heap", format!("{} (length {}): {} block(s) holding {} secret byte(s) went back to the allocator unwiped", names[variant], len, blocks, bytes), rp.clone()); }
+            }
+        }
     }
 }
